@@ -187,7 +187,7 @@ def random_synthetic(run, pid, checks, seed, n_kernels, maxlen, tag="r3", nmodel
         for isa in ("x86", "aarch64"):
             shapes = dc.synthetic_shapes(isa, rnd)
             pidx = rnd.choice([1.0, 2.0, 3.0])
-            dc.write_synthetic_models(isa, shapes, d, pidx=pidx, fwd=0.0)
+            dc.write_synthetic_models(isa, shapes, d, pidx=pidx, fwd=0.0, hidden_loads=(rnd.random() < 0.5))
             _models(isa, d)   # load once here: forked workers inherit it
             items = []
             for n in range(n_kernels // (2 * nmodels)):
@@ -546,7 +546,7 @@ def rotation_cases(run, pid, seed, n_kernels, maxlen, all_offsets, archs_x86, ar
 
     for isa in ("x86", "aarch64"):
         shapes = dc.synthetic_shapes(isa, rnd)
-        dc.write_synthetic_models(isa, shapes, d, pidx=rnd.choice([1.0, 2.0]), fwd=0.0)
+        dc.write_synthetic_models(isa, shapes, d, pidx=rnd.choice([1.0, 2.0]), fwd=0.0, hidden_loads=(rnd.random() < 0.5))
         _models(isa, d)
         for q in range(n_kernels // 2):
             ln = rnd.randint(2, maxlen)
